@@ -1303,15 +1303,14 @@ func (t *tree) errorf(format string, args ...interface{}) {
 // terminates processing.
 func (t *tree) errorfAt(tok item, format string, args ...interface{}) {
 	t.root = nil
-	format = fmt.Sprintf("template %s:%d:%d: %s", t.name,
-		t.lex.lineNumber(tok.pos), t.lex.columnNumber(tok.pos), format)
+	// (the file name is data, not part of the format: it may contain a '%')
 	panic(
 		errortypes.NewErrFilePosf(
 			t.name,
 			t.lex.lineNumber(tok.pos),
 			t.lex.columnNumber(tok.pos),
-			format,
-			args...,
+			"template %s:%d:%d: %s", t.name,
+			t.lex.lineNumber(tok.pos), t.lex.columnNumber(tok.pos), fmt.Sprintf(format, args...),
 		),
 	)
 }
